@@ -165,12 +165,17 @@ class World:
         was = self.faults.fail_exec_in, self.faults.fail_connect
         self.faults.disarm()
         out = []
-        cur = self.raw.cursor()
-        for t in TABLES:
-            cur.execute(f'SELECT * FROM "{t}" ORDER BY id')
-            out.append((t, tuple(cur.fetchall())))
-        cur.execute("SELECT name FROM sqlite_master ORDER BY name")
-        out.append(tuple(cur.fetchall()))
+        try:
+            cur = self.raw.cursor()
+            for t in TABLES:
+                cur.execute(f'SELECT * FROM "{t}" ORDER BY id')
+                out.append((t, tuple(cur.fetchall())))
+            cur.execute("SELECT name FROM sqlite_master ORDER BY name")
+            out.append(tuple(cur.fetchall()))
+        except Exception as e:  # noqa: BLE001
+            # the database itself is gone / unreadable (e.g. its only connection was closed by the
+            # library): that is a change of the source tables, reported by the frame condition
+            out.append(("database unreadable", type(e).__name__, str(e)[:80]))
         self.faults.fail_exec_in, self.faults.fail_connect = was
         return tuple(out)
 
